@@ -136,7 +136,7 @@ func cmdVC(args []string) {
 		if v := os.Getenv("GOVC_FBS"); v != "" {
 			fmt.Sscanf(v, "%d", &fbs)
 		}
-		so := SolveOpts{Dir: dir, QuickMs: qms, FallbackS: fbs}
+		so := SolveOpts{Dir: dir, QuickMs: qms, FallbackS: fbs, Thorough: os.Getenv("GOVC_THOROUGH") != ""}
 		if on := os.Getenv("GOVC_ONLY"); on != "" {
 			so.Only = map[string]bool{}
 			for _, o := range x.obls {
